@@ -28,6 +28,12 @@ func normFact(c ssa.Value, pol bool) Fact {
 	return Fact{c, pol}
 }
 
+// assertsEq: the comparison b, taken with polarity pol, asserts that its operands are EQUAL
+// (x == y held true, or x != y held false).
+func assertsEq(b *ssa.BinOp, pol bool) bool {
+	return (b.Op == token.EQL && pol) || (b.Op == token.NEQ && !pol)
+}
+
 // blockFacts returns the facts holding on entry to block b.
 func blockFacts(b *ssa.BasicBlock) []Fact {
 	return blockFactsS(b, map[Fact]bool{})
